@@ -19,6 +19,7 @@ import (
 	"syscall"
 
 	"github.com/nuetzliches/hookaido/internal/config"
+	"github.com/nuetzliches/hookaido/internal/queue"
 )
 
 type mgmtVariant struct {
@@ -31,6 +32,8 @@ type mgmtVariant struct {
 	// the mutation arrives. The mutation works from the file, so a 2xx answer
 	// makes all of it the running configuration - tokens included.
 	pending *SysSpec
+	// raceRoute: route on which a message arrives while the mutation is in flight
+	raceRoute string
 }
 
 func mgmtVariantByName(name string) *mgmtVariant {
@@ -59,6 +62,14 @@ func mgmtVariantByName(name string) *mgmtVariant {
 		p.PullTokens = []string{"pull-token-2"}
 		p.Routes = append(p.Routes, RouteSpec{Path: "/d", PullPath: "/pull/d", PullTokens: []string{"d-token"}})
 		return &mgmtVariant{spec: base(), pending: p, method: "PUT", app: "billing", ep: "invoice", route: "/b", wantMap: true}
+	case "delete-racing-message":
+		s := base()
+		s.Routes[0].App, s.Routes[0].Endpoint = "billing", "invoice"
+		return &mgmtVariant{spec: s, method: "DELETE", app: "billing", ep: "invoice", wantMap: false, raceRoute: "/a"}
+	case "move-racing-message":
+		s := base()
+		s.Routes[0].App, s.Routes[0].Endpoint = "billing", "invoice"
+		return &mgmtVariant{spec: s, method: "PUT", app: "billing", ep: "invoice", route: "/c", wantMap: true, raceRoute: "/a"}
 	case "upsert-sqlite":
 		s := base()
 		s.Backend = "sqlite"
@@ -87,6 +98,7 @@ type mgmtRun struct {
 	body     string
 	mapped   bool // GET of the endpoint after the call (running configuration)
 	mappedTo string
+	raced    bool // the racing message was enqueued while the call was in flight
 }
 
 func (v *mgmtVariant) request() (*http.Request, error) {
@@ -118,7 +130,7 @@ func (v *mgmtVariant) lookup(w *SysWorld) (bool, string) {
 }
 
 // run executes the variant's mutation on a fresh node with the given faults.
-func (v *mgmtVariant) run(failAt int, failErr error, crashAt int) (*mgmtRun, string) {
+func (v *mgmtVariant) run(failAt int, failErr error, crashAt int, raceAt ...int) (*mgmtRun, string) {
 	spec := *v.spec
 	w, err := NewSysWorld(&spec, 0, SysOptions{Seed: 1})
 	if err != nil {
@@ -145,7 +157,26 @@ func (v *mgmtVariant) run(failAt int, failErr error, crashAt int) (*mgmtRun, str
 	fs.AddExisting(w.cfgPath, r.old)
 	fs.FailAt, fs.FailErr, fs.CrashAt = failAt, failErr, crashAt
 	fs.Install()
-	resp := w.Do("mgmt", w.Admin, req)
+	var resp *Resp
+	if len(raceAt) > 0 && raceAt[0] >= 0 {
+		// a message arrives on the endpoint's current route after the mutation
+		// has executed raceAt statements of mutateManagedEndpointConfig
+		w.Sched.SetArmed(func(l string) bool { return strings.HasPrefix(l, "app.mutateManagedEndpointConfig#") })
+		t := w.Start("mgmt", w.Admin, req)
+		k := "parked"
+		for i := 0; i <= raceAt[0] && k == "parked"; i++ {
+			k = w.Sched.Step(t)
+		}
+		w.Sched.SetArmed(nil)
+		if k == "parked" {
+			r.raced = true
+			_ = w.Node.Store.Enqueue(queue.Envelope{Route: v.raceRoute, Target: "pull", Payload: []byte("arrived-during-the-mutation")})
+			k = w.Sched.RunToEnd(t)
+		}
+		resp = w.finish(t, k)
+	} else {
+		resp = w.Do("mgmt", w.Admin, req)
+	}
 	UninstallSimFS()
 	r.fs = fs
 	r.status, r.body = resp.Status, string(resp.Body)
@@ -219,9 +250,11 @@ func runMgmtCase(res *Result, s Step) {
 		res.Trouble = "mgmt baseline " + s.Route + ": " + base.trouble
 		return
 	}
-	failAt, crashAt := -1, -1
+	failAt, crashAt, raceAt := -1, -1, -1
 	var failErr error
 	switch s.Reason {
+	case "race":
+		raceAt = s.Batch
 	case "none":
 	case "crash":
 		crashAt = s.Batch
@@ -230,13 +263,16 @@ func runMgmtCase(res *Result, s Step) {
 	default:
 		failAt, failErr = s.Batch, errnoByName(s.Reason)
 	}
-	r, trouble := v.run(failAt, failErr, crashAt)
+	r, trouble := v.run(failAt, failErr, crashAt, raceAt)
 	if trouble != "" {
 		res.Trouble = trouble
 		return
 	}
 	defer r.w.Close()
 	res.Ops++
+	if r.raced {
+		res.probe("mgmt.message_arrived_during_mutation")
+	}
 	loc := "mgmt/" + s.Route + "/" + s.Reason
 	res.logf("%s %s fault=%s@%d -> status=%d (%d os calls, reload reads at #%d) mapped=%v(%s)", s.Route, v.method, s.Reason, s.Batch, r.status, r.fs.Calls, base.reloadRead, r.mapped, r.mappedTo)
 	for _, tl := range r.fs.Trace {
@@ -264,7 +300,7 @@ func runMgmtCase(res *Result, s Step) {
 	} else if _, vr := config.Compile(cfg); !vr.OK {
 		addV("C18.mgmt.newcontent", "%s: the rewritten file does not compile: %s", s.Route, config.FormatValidationText(vr))
 	}
-	oldMapped := v.method == "DELETE" || s.Route == "move"
+	oldMapped := v.method == "DELETE" || strings.HasPrefix(s.Route, "move")
 	switch {
 	case r.fs.Dead:
 		res.fault("mgmt.crash")
@@ -334,6 +370,11 @@ func runMgmtCase(res *Result, s Step) {
 			if !bytes.Equal(b, r.old) && failAt >= 0 && failAt == base.reloadRead {
 				addV("C18.mgmt.notrolledback", "%s: answered %d (%s) but the previous content is not back: the file is %s", s.Route, r.status, truncS([]byte(r.body), 120), map[bool]string{true: "the new content", false: "neither old nor new"}[bytes.Equal(b, base.newBytes)])
 			}
+			if s.Reason == "race" && !bytes.Equal(b, r.old) {
+				// refused because backlog appeared on the old route (validation
+				// after the write): the previous content has to be back
+				addV("C18.mgmt.notrolledback", "%s: answered %d (%s) after a message arrived on the old route during the call, but the previous content is not back", s.Route, r.status, truncS([]byte(r.body), 120))
+			}
 			if r.mapped != oldMapped {
 				addV("C18.mgmt.running_changed", "%s: answered %d but the running configuration changed: %s/%s mapped=%v(%s), before mapped=%v", s.Route, r.status, v.app, v.ep, r.mapped, r.mappedTo, oldMapped)
 			}
@@ -365,6 +406,14 @@ func EnumMgmtCases() []*Program {
 			out = append(out, mk(variant, "reloadfail+crash", k))
 		}
 	}
+	// a message arrives on the endpoint's current route while a delete / move is
+	// in flight, after each statement of mutateManagedEndpointConfig in turn
+	for _, variant := range []string{"delete-racing-message", "move-racing-message"} {
+		out = append(out, mk(variant, "none", 0))
+		for k := 0; k <= 45; k++ {
+			out = append(out, mk(variant, "race", k))
+		}
+	}
 	return out
 }
 
@@ -375,7 +424,7 @@ func init() {
 		Enum:       EnumMgmtCases,
 		Level:      "fault_enumeration",
 		NonTrivial: func(p *Program, r *Result) bool { return r.Probes["mgmt.image"] > 0 },
-		Rule:       "W-mgmt, exhaustive: PUT / DELETE of an application/endpoint mapping through the real Admin handler on a fresh node (5 variants: upsert, delete, move, upsert on SQLite, upsert while the file holds an operator's edit that nobody has reloaded yet - rotated global pull token, new route with tokens of its own: after a 2xx the Pull API honours exactly the token lists the file declares), the os calls of mutateManagedEndpointConfig / writeFileAtomic / reloadConfig rerouted to simfs: no fault; EIO/ENOSPC/EACCES at every call; a crash before every call x every post-crash image; the reload's read failing (rollback path) followed by a crash before every later call. Oracle: the config path always holds the complete old or the complete new content, the new content compiles, a 2xx answer means file = new and running = new, any other answer means the previous content is back and the running mapping unchanged, and the file still reloads",
+		Rule:       "W-mgmt, exhaustive: PUT / DELETE of an application/endpoint mapping through the real Admin handler on a fresh node (5 variants: upsert, delete, move, upsert on SQLite, upsert while the file holds an operator's edit that nobody has reloaded yet - rotated global pull token, new route with tokens of its own: after a 2xx the Pull API honours exactly the token lists the file declares; delete and move while a message arrives on the endpoint's current route after each statement of mutateManagedEndpointConfig in turn: a refused call leaves file and running mapping as they were), the os calls of mutateManagedEndpointConfig / writeFileAtomic / reloadConfig rerouted to simfs: no fault; EIO/ENOSPC/EACCES at every call; a crash before every call x every post-crash image; the reload's read failing (rollback path) followed by a crash before every later call. Oracle: the config path always holds the complete old or the complete new content, the new content compiles, a 2xx answer means file = new and running = new, any other answer means the previous content is back and the running mapping unchanged, and the file still reloads",
 		RealStub: map[string]string{
 			"admin.Server management handlers, app.mutateManagedEndpointConfig, applyManagedEndpointUpsert/Delete, config.Format/Parse/Compile, writeFileAtomic, reloadConfig": "real (node assembled by app.VerifNewNode; os calls rerouted to verifos by the check-time rewrite)",
 			"file system durability": "simulated (simfs journal)",
